@@ -26,14 +26,18 @@ BASE_CFG = {
     "ops": {"extend": 8, "natural_join": 5, "concat_rows": 3, "window": 3, "ordered_window": 3, "convert_records": 2},
     "reuse_bias": True,
     "shape": "diamond",
+    "extend_then_ordered_window_prob": 0.25,
     "shape_prob": 0.65,  # the rest are plain chains, where extend -> ordered window on the fresh column is frequent
 }
 
 INDENTS = [" ", "   ", "\t"]
 
 
-def variants(tier_full: bool):
-    """(label, dialect key, model tweaks, SQLFormatOptions kwargs)"""
+def variants(tier_full: bool, focus=None):
+    """(label, dialect key, model tweaks, SQLFormatOptions kwargs)
+    focus="merge": only the four plain-SQLite variants {WITH on/off} x {extend merges on/off} (cheap: many more programs)"""
+    if focus == "merge":
+        return [v for v in variants(False) if v[1] == "sqlite"]
     out = []
     if not tier_full:
         # quick tier (to_sql costs ~50-100 ms on deep DAGs): 16 variants covering every option at least in both
@@ -86,7 +90,7 @@ def _models():
     return m
 
 
-def metamorphic(case, full=False):
+def metamorphic(case, full=False, focus=None):
     import warnings
 
     from data_algebra.sql_format_options import SQLFormatOptions
@@ -109,7 +113,7 @@ def metamorphic(case, full=False):
         texts = {}
         base = {}
         failure = None
-        for label, dialect, merges, kw in variants(full):
+        for label, dialect, merges, kw in variants(full, focus):
             model = models[dialect]
             model.allow_extend_merges = merges
             with warnings.catch_warnings():
@@ -140,12 +144,13 @@ def metamorphic(case, full=False):
                     results[label] = ("exec_error", str(e.exc)[-300:])
         # baseline per dialect: no WITH, no merges, no annotation
         for dialect in ("sqlite", "sqlite_cte", "pg"):
-            bl = [l for (l, d, m, kw) in variants(full) if d == dialect and not m and not kw["use_with"] and not kw["use_cte_elim"] and not kw["annotate"] and not kw["initial_commas"]]
-            base[dialect] = bl[0]
+            bl = [l for (l, d, m, kw) in variants(full, focus) if d == dialect and not m and not kw["use_with"] and not kw["use_cte_elim"] and not kw["annotate"] and not kw["initial_commas"]]
+            if bl:
+                base[dialect] = bl[0]
         info["distinct_texts"] = len(set(texts.values()))
         # did an optimisation actually fire? (observed from outside: CTE elimination removes a `name AS (` definition,
         # SQL-level extend merging removes a SELECT; formatting options change neither count)
-        meta = {l: (d, kw["use_with"], kw["use_cte_elim"], m) for (l, d, m, kw) in variants(full)}
+        meta = {l: (d, kw["use_with"], kw["use_cte_elim"], m) for (l, d, m, kw) in variants(full, focus)}
 
         def _count(label, token):
             return texts[label].count(token)
@@ -168,7 +173,7 @@ def metamorphic(case, full=False):
         if statuses <= {"to_sql_error"} or statuses <= {"exec_error", "to_sql_error"}:
             info["all_variants_raise"] = True
             return None, info
-        for label, dialect, merges, kw in variants(full):
+        for label, dialect, merges, kw in variants(full, focus):
             st, val = results[label]
             bst, bval = results[base[dialect]]
             if st == "surrogate_cannot_run" or bst == "surrogate_cannot_run":
@@ -207,7 +212,7 @@ def metamorphic(case, full=False):
                     info,
                 )
         # across dialects
-        oks = [(d, results[base[d]][1]) for d in ("sqlite", "sqlite_cte", "pg") if results[base[d]][0] == "ok"]
+        oks = [(d, results[base[d]][1]) for d in ("sqlite", "sqlite_cte", "pg") if d in base and results[base[d]][0] == "ok"]
         for (d1, r1), (d2, r2) in zip(oks, oks[1:]):
             d = cmp.compare(r1, r2, ordered_by=ordered_by, zn_cols=())
             if d is not None:
@@ -263,19 +268,34 @@ def run(ctx):
     cfg = dict(BASE_CFG)
     cfg["closed"] = set(ctx.closed)
 
-    def oracle(case):
-        f, info = metamorphic(case, full)
-        fs = gen.features(case)
+    def oracle(case, focus=None):
+        f, info = metamorphic(case, full, focus)
+        fs = gen.features(case) + (["focus_" + focus] if focus else [])
         nt = info.get("distinct_texts", 0) >= 3 and (info.get("cte_hit") or info.get("merge_hit"))
         if info.get("cte_hit"):
             fs = fs + ["cte_hit"]
         if info.get("merge_hit"):
             fs = fs + ["merge_hit"]
         ev.note(case, bool(nt), fs, sample={"program": c01._sample(case), "distinct_sql_texts": info.get("distinct_texts")})
-        ev.count("sql_variants_executed", nvar)
+        ev.count("sql_variants_executed", len(variants(full, focus)))
         for k in ("builder_rejected", "all_variants_raise", "surrogate_cannot_run"):
             if info.get(k):
                 ev.count(k)
         return f
 
     ctx.campaign("main", gen.programs(cfg), oracle, max_examples=ctx.n(60, 8000))
+    # extend-merge focus: extend-heavy chains (row-wise extend directly followed by a window ordered by / partitioned by
+    # what it assigned, window pairs), only the four plain-SQLite variants -> 4x cheaper per program
+    mcfg = dict(cfg)
+    mcfg.update(
+        {
+            "shape": None,
+            "max_nodes": 6,
+            "n_tables": (1, 1),
+            "extend_then_ordered_window_prob": 0.5,
+            "ops": {"extend": 10, "window": 5, "ordered_window": 5, "select_rows": 1, "project": 1, "natural_join": 0, "concat_rows": 0, "convert_records": 0, "order_rows": 1, "drop_columns": 0.5, "select_columns": 0.5, "rename_columns": 0.5, "map_columns": 0},
+            "min_steps": 3,
+            "final_order": 0.1,
+        }
+    )
+    ctx.campaign("merge_focus", gen.programs(mcfg), lambda case: oracle(case, "merge"), max_examples=ctx.n(250, 24000))
